@@ -16,6 +16,7 @@ GNext == \/ \E S \in SUBSET Page : Write(S) /\ H([a |-> "w", pages |-> S])
          \/ Finalize /\ H([a |-> "final"])
          \/ SinkClose /\ H([a |-> "close"])
          \/ PersistNotInvoked /\ H([a |-> "notinv"])
+         \/ Reap /\ H([a |-> "reap"])
          \/ Crash /\ H([a |-> "crash", ph |-> pend.ph])
          \/ Stop /\ H([a |-> "stop"])
          \/ \E r \in BOOLEAN : Open(r) /\ H([a |-> "open", recover |-> r])
